@@ -118,13 +118,23 @@ func TestC02(t *testing.T) {
 			if c.Shard != 0 {
 				return
 			}
-			for _, op := range bn.UnOps {
-				for _, r := range c02Producers {
-					src := c02Prelude + bn.KwPrint + " " + op + r.text + ";\n"
-					c.c02Program(s, "matrix-unary", src, !r.nice, true, "op unary"+op, r.kind)
+			ops := append([]string{}, bn.UnOps...)
+			for _, a := range bn.UnOps {
+				for _, b2 := range bn.UnOps {
+					ops = append(ops, a+" "+b2, a+b2)
 				}
 			}
-			c.Ev.MarkExhaustive(fmt.Sprintf("every unary operator x every one of %d operand producers", len(c02Producers)))
+			ops = append(ops, "- - -", "~~~", "!!!", "-(-", "~(~")
+			for _, op := range ops {
+				for _, r := range c02Producers {
+					closeP := strings.Repeat(")", strings.Count(op, "("))
+					src := c02Prelude + bn.KwPrint + " " + op + r.text + closeP + ";\n"
+					c.c02Program(s, "matrix-unary", src, !r.nice, true, "op unary"+op, r.kind)
+					src2 := c02Prelude + bn.KwPrint + " " + op + r.text + closeP + " + 1;\n"
+					c.c02Program(s, "matrix-unary", src2, true, true, "op unary"+op, r.kind)
+				}
+			}
+			c.Ev.MarkExhaustive(fmt.Sprintf("every unary operator, every pair of unary operators (adjacent and spaced) and some triples x every one of %d operand producers", len(c02Producers)))
 		})
 		c.Sub("self-update-shapes", func(s *Sub) {
 			// the same operators in the statement shapes `v = v op k`, `v = k op v`, updates of elements and properties,
